@@ -99,7 +99,10 @@ def gen_specs(ctx, baseline):
     add(spec_for(['all all 7', 'all all 0'], qfault='waitpid 1 err %d\n' % errno.EINTR), 'forced-wait-error')
     # two faults
     for _ in range(20 if quick else 300):
-        i, j2 = rng.randrange(nwrites), rng.randrange(4)
+        # (the write fault must lie in front of the close fault, else it would hit the follow-up transaction:
+        # the counters run over the whole session)
+        j2 = rng.randrange(4)
+        i = rng.randrange(baseline['ndata'] if j2 <= 2 else nwrites)
         add(spec_for(['all all %d' % rng.choice(exits), 'all all 0'],
                      qfault='write %d %s\nclose %d err %d\n' % (i, rng.choice(['short 2', 'err 32', 'err 28']), j2, errno.EIO)), 'forced-two')
     # (C) a write fails and the rest of the payload is malformed / looks like commands
@@ -236,7 +239,17 @@ def measure_baseline(ctx, binary):
     if not wins or r.codes()[-3:] != ['354', '250', '221']:
         ctx.unshown.append('the fault-free baseline session did not run as expected: %s' % r.codes())
         return None
-    return {'nwrites': len(wins[0].wlens)}
+    # writes to the message pipe = the writes in front of the third close (the two read ends are closed first)
+    ndata, closes = 0, 0
+    for raw in wins[0].qraw:
+        f = raw.split()
+        if f[0] == 'close':
+            closes += 1
+            if closes == 3:
+                break
+        elif f[0] in ('write', 'writev'):
+            ndata += 1
+    return {'nwrites': len(wins[0].wlens), 'ndata': ndata}
 
 
 def corpus_specs():
